@@ -1773,6 +1773,22 @@ pub fn run_expiry(args: &Args, rep: &mut Report) {
                     }
                 }
             }
+            // the other way in: shards handed to a manager one by one, by file path (downloaded global-dedup shards arrive so)
+            let other = tempfile::tempdir().unwrap();
+            let mgr2 = rt.block_on(ShardFileManager::new_in_session_directory(other.path())).map_err(|e| ("manager-open".to_string(), format!("{e}")))?;
+            for (p2, _) in &shards {
+                rt.block_on(mgr2.register_shards_by_path(&[p2.clone()])).map_err(|e| ("expiry-register-error".to_string(), format!("{e}")))?;
+            }
+            let reg2: BTreeSet<PathBuf> = rt.block_on(mgr2.registered_shard_list()).map_err(|e| ("manager-list".to_string(), format!("{e}")))?.iter().map(|s| std::path::absolute(&s.path).unwrap()).collect();
+            for (p2, expiry) in &shards {
+                let p2 = std::path::absolute(p2).unwrap();
+                if expiry.saturating_add(MARGIN) < now && reg2.contains(&p2) {
+                    return fail("expiry-loaded-expired-by-path", format!("a shard expired {}s ago was registered when handed over by file path", now - expiry));
+                }
+                if *expiry > now + MARGIN && !reg2.contains(&p2) {
+                    return fail("expiry-valid-not-loaded", "a shard that is not expired was not registered when handed over by file path");
+                }
+            }
             MDBShardFile::clean_expired_shards(dir.path(), buffer).map_err(|e| ("expiry-clean-error".to_string(), format!("{e}")))?;
             for (p2, expiry) in &shards {
                 let exists = p2.exists();
